@@ -14,30 +14,38 @@ Definition refuted (s : site) (md : mode) (t : rty) (k : kclass) : Prop :=
   option_map (c05_ok s md [] t) (emit_type s md [] t) = Some false.
 
 Definition w_union := RPath (L "Vec") [RPath (L "Option") [lf "String"]].
-Definition w_result := RPath (L "Result") [RPath (L "HashMap") [lf "String"; lf "User"]; lf "String"].
-Definition w_tuple := RTuple [lf "User"; RPath (L "HashMap") [lf "String"; lf "i32"]].
-Definition w_pfx_composite := RPath (L "Vec") [RPath (L "Vec") [lf "String"]].
 Definition w_pfx_unqualified := RPath (L "HashMap") [lf "String"; lf "User"].
+Definition w_pfx_unqualified_seq := RPath (L "Vec") [RPath (L "HashMap") [lf "User"; lf "i32"]].
 Definition w_zod_optional := RPath (L "Option") [lf "String"].
 Definition w_zod_set := RPath (L "HashSet") [lf "String"].
 Definition w_zod_result := RPath (L "Result") [lf "String"; lf "String"].
+(* witnesses of the repaired classes (C05-2, C05-3, C05-4) *)
+Definition w_result := RPath (L "Result") [RPath (L "HashMap") [lf "String"; lf "User"]; lf "String"].
+Definition w_tuple := RTuple [lf "User"; RPath (L "HashMap") [lf "String"; lf "i32"]].
+Definition w_pfx_composite := RPath (L "Vec") [RPath (L "Vec") [lf "String"]].
 
 Ltac witness := split; [vm_compute; reflexivity | split; vm_compute; reflexivity].
 Lemma union_under_seq_refuted : refuted SField MNone w_union KUnionUnderSeq. Proof. witness. Qed.
-Lemma result_ok_has_comma_refuted : refuted SField MNone w_result KResultComma. Proof. witness. Qed.
-Lemma tuple_elem_has_comma_refuted : refuted SField MNone w_tuple KTupleComma. Proof. witness. Qed.
-Lemma prefix_composite_refuted : refuted SReturn MNone w_pfx_composite KPrefixComposite. Proof. witness. Qed.
 Lemma prefix_unqualified_refuted : refuted SReturn MNone w_pfx_unqualified KPrefixUnqualified. Proof. witness. Qed.
+Lemma prefix_unqualified_seq_refuted : refuted SReturn MNone w_pfx_unqualified_seq KPrefixUnqualified. Proof. witness. Qed.
 Lemma zod_optional_refuted : refuted SField MZod w_zod_optional KZodOptional. Proof. witness. Qed.
 Lemma zod_set_refuted : refuted SField MZod w_zod_set KZodSet. Proof. witness. Qed.
 Lemma zod_result_refuted : refuted SField MZod w_zod_result KZodResult. Proof. witness. Qed.
 
-(* what the model prints for the witnesses (compare known_findings/C05.json) *)
+(* the repaired classes: on the old witnesses the model (= the patched code) now satisfies the
+   specification at the site where it used to fail *)
+Definition repaired (s : site) (md : mode) (t : rty) (text : string) : Prop :=
+  dom_b t = true /\ classes_of s md [] t = [] /\
+  emit_type s md [] t = Some (L text) /\ c05_ok s md [] t (L text) = true.
+Ltac fixed := split; [vm_compute; reflexivity | split; [vm_compute; reflexivity | split; vm_compute; reflexivity]].
+Lemma result_ok_has_comma_repaired : repaired SField MNone w_result "Record<string, User>". Proof. fixed. Qed.
+Lemma tuple_elem_has_comma_repaired : repaired SField MNone w_tuple "[User, Record<string, number>]". Proof. fixed. Qed.
+Lemma prefix_composite_repaired : repaired SReturn MNone w_pfx_composite "string[][]". Proof. fixed. Qed.
+
+(* what the model prints for the remaining witnesses (compare known_findings/C05.json) *)
 Example w_union_text : emit_type SField MNone [] w_union = Some (L "string | null[]"). Proof. vm_compute. reflexivity. Qed.
-Example w_result_text : emit_type SField MNone [] w_result = Some (L "HashMap<String"). Proof. vm_compute. reflexivity. Qed.
-Example w_tuple_text : emit_type SField MNone [] w_tuple = Some (L "[User, HashMap<String, i32>]"). Proof. vm_compute. reflexivity. Qed.
-Example w_pfx_composite_text : emit_type SReturn MNone [] w_pfx_composite = Some (L "types.string[][]"). Proof. vm_compute. reflexivity. Qed.
 Example w_pfx_unqualified_text : emit_type SReturn MNone [] w_pfx_unqualified = Some (L "Record<string, User>"). Proof. vm_compute. reflexivity. Qed.
+Example w_pfx_unqualified_seq_text : emit_type SReturn MNone [] w_pfx_unqualified_seq = Some (L "Record<User, number>[]"). Proof. vm_compute. reflexivity. Qed.
 Example w_zod_optional_text : emit_type SField MZod [] w_zod_optional = Some (L "z.string().optional()"). Proof. vm_compute. reflexivity. Qed.
 Example w_zod_set_text : emit_type SField MZod [] w_zod_set = Some (L "z.set(z.string())"). Proof. vm_compute. reflexivity. Qed.
 Example w_zod_result_text : emit_type SField MZod [] w_zod_result = Some (L "z.union([z.string(), z.object({ error: z.string() })])"). Proof. vm_compute. reflexivity. Qed.
